@@ -418,6 +418,34 @@ class C19(PropertyCheck):
                 continue
             yield {"kind": "srswor", "via": rng.choice(["function", "distribution"]),
                    "out_size": rng.choice([None, mt, mt + 1]), "elems": elems}
+        # round h: HOW the counts and the sizes are handed over.  Every (total, given) <= 3 (5 when big) x
+        # out_size omitted / None / equal / larger (by 1, by 3) x the counts as 0-dim tensors, python ints
+        # (distribution), one-element and two-element vectors, a 0-dim total broadcast against a vector of
+        # givens x the function and the distribution with sample shape () / [1] / [2] / [3]
+        nth = rng.randrange(4)
+        for total in range(0, (3 if not big else 5) + 1):
+            for given in range(0, total + 1):
+                for osz in ("omitted", None, 0, 1, 3):
+                    if total + (osz if isinstance(osz, int) else 0) == 0:
+                        continue
+                    for counts, B in (("0dim", 1), ("int", 1), ("1d", 1), ("1d", 2), ("bcast", 2)):
+                        def elems():
+                            out = [{"total": total, "given": given, "bits": [rng.randint(0, 1) for _ in range(total)]}]
+                            if B == 2 and counts == "bcast":
+                                out.append({"total": total, "given": rng.randint(0, total),
+                                            "bits": [rng.randint(0, 1) for _ in range(total)]})
+                            elif B == 2:
+                                t2 = rng.randint(0, total)
+                                out.append({"total": t2, "given": rng.randint(0, t2),
+                                            "bits": [rng.randint(0, 1) for _ in range(t2)]})
+                            return out
+                        size = {"out_size": total + osz if isinstance(osz, int) else None,
+                                **({"out_omitted": True} if osz == "omitted" else {})}
+                        if counts != "int":
+                            yield {"kind": "srswor", "via": "function", "counts": counts, "elems": elems(), **size}
+                        nth += 1
+                        yield {"kind": "srswor", "via": "distribution", "counts": counts, "elems": elems(),
+                               "sample_n": (None, 1, None, 3, 2)[nth % 5], **size}
         for total in range(1, tmax + 1):
             for given in range(0, total + 1):
                 yield {"kind": "srswor_dist", "total": total, "given": given,
@@ -1058,13 +1086,27 @@ class C19(PropertyCheck):
                 yield {"kind": "enumerate", "dist": sp, "is_log": rng.random() < (0.5 if "is_log" in lf["set"] else 0.15),
                        "f": btables(sp) if which.startswith("bern") else _table(rng, fam.n_points(sp)),
                        "life": dict(lf, alt={"proposal": same_shape(which, sp), "smaller": smaller})}
-            for lf in life_.skeletons(rng, "imh"):
-                which = rng.choice(["bern1", "bern2", "cat3", "onehot3"])
+            def imh_lives():
+                for lf in life_.skeletons(rng, "imh"):
+                    yield lf, None
+                # round h: the object is RE-POINTED - constructed over one distribution (handed its starting
+                # point), then `proposal` / `density` (/ `initial_sample`) assigned, proposal == target at the
+                # call: every proposal accepted, whatever was evaluated at construction.  Two normalised
+                # distributions that differ have a point where the constructing one is the larger: EVERY
+                # starting point of the sample space is handed once (not a lucky one)
+                for n, st in enumerate((["density"], ["density", "proposal"], ["initial_sample", "density"],
+                                        ["initial_sample"], ["initial_sample", "density", "proposal"])):
+                    which = ["bern1", "cat3", "bern2", "onehot3"][(n + rng.randrange(4)) % 4]
+                    for init in range(4 if which == "bern2" else 2 if which == "bern1" else 3):
+                        yield ({"set": st, "warm": (n + init) % 3, "reuse": (n + init) % 2 == 1},
+                               {"which": which, "init": init})
+            for lf, pinned in imh_lives():
+                which = pinned["which"] if pinned else rng.choice(["bern1", "bern2", "cat3", "onehot3"])
                 layout = "batch" if which.startswith("bern") and rng.random() < 0.4 else "event"
                 sp = _family(rng, which)
                 M = fam.n_points(sp)
                 kept, burn = rng.choice([1, 2, 3]), rng.choice([0, 0, 1, 2])
-                dens_life = bool({"density", "proposal"} & set(lf["set"]))
+                dens_life = bool({"density", "proposal"} & set(lf["set"])) or bool(pinned)
                 if dens_life:       # a chain long enough for a wrong log-ratio to change a decision
                     kept, burn = 3, rng.choice([0, 1])
                 N = kept + burn
@@ -1083,6 +1125,10 @@ class C19(PropertyCheck):
                                               "burn_in": rng.randrange(N), "proposal": same_shape(which, sp),
                                               "density": same_shape(which, sp),
                                               "initial_sample": rng.choice(["none", rng.randrange(M)])})}
+                if pinned:
+                    case.update(init=pinned["init"] % M, density="same", repointed=True)
+                    if "initial_sample" in lf["set"]:   # constructed with ANOTHER handed starting point
+                        case["life"]["alt"]["initial_sample"] = (pinned["init"] + 1 + rng.randrange(M - 1)) % M
                 # (an object that goes on using the density / proposal it was constructed with decides
                 # accept / reject with other log-ratios: uniforms next to 1 make every such decision visible)
                 upool = us[-1:] if dens_life else us
@@ -2333,7 +2379,8 @@ class C19(PropertyCheck):
         import torch
         from pydrobert.torch.functional import simple_random_sampling_without_replacement as srs
         from pydrobert.torch.distributions import SimpleRandomSamplingWithoutReplacement as S
-        elems = case["elems"]
+        base = case["elems"]
+        elems = self._srswor_eff(case)
         queues = [list(e["bits"]) for e in elems]
         ps, outs = [[] for _ in elems], [[] for _ in elems]
 
@@ -2351,17 +2398,62 @@ class C19(PropertyCheck):
                 outs[i].append(x)
                 o.append(x)
             return torch.tensor(o, dtype=p.dtype).reshape(p.shape)
-        total = torch.tensor([e["total"] for e in elems])
-        given = torch.tensor([e["given"] for e in elems])
+        # how the counts are handed over (round h): a vector per count (before), 0-dim tensors / python
+        # ints (a single vector, no batch axis), a 0-dim total broadcast against a vector of givens
+        counts = self._srswor_counts(case)
+        if counts == "1d":
+            total = torch.tensor([e["total"] for e in base])
+            given = torch.tensor([e["given"] for e in base])
+        elif counts == "bcast":
+            total = torch.tensor(base[0]["total"])
+            given = torch.tensor([e["given"] for e in base])
+        else:
+            total, given = torch.tensor(base[0]["total"]), torch.tensor(base[0]["given"])
+        n = case.get("sample_n")
         info = {}
         with fam.torch_patched(bernoulli=bern):
             if case["via"] == "function":
-                b = srs(total, given, case["out_size"])
+                b = srs(total, given, *([] if case.get("out_omitted") else [case["out_size"]]))
             else:
-                d = S(given, total, case["out_size"], validate_args=True)
-                b = d.sample()
-                info["in_support"] = d.support.check(b).tolist()
+                if counts == "int":
+                    total, given = int(total), int(given)
+                d = S(given, total, *([] if case.get("out_omitted") else [case["out_size"]]), validate_args=True)
+                b = d.sample() if n is None else d.sample([n])
+                info["in_support"] = d.support.check(b).reshape(-1).tolist()
+                info["dist_shape"] = list(d.batch_shape) + list(d.event_shape)
+        info["shape"] = list(b.shape)
+        if b.numel() % len(elems) == 0 and b.numel():
+            b = b.reshape(len(elems), -1)
         return b, ps, outs, info
+
+    @staticmethod
+    def _srswor_counts(case):
+        """the form of the counts; anything but one vector per count needs what it says (normalised, so
+        that a shrunk case stays well-formed)"""
+        c = case.get("counts", "1d")
+        el = case["elems"]
+        if c in ("0dim", "int") and len(el) != 1:
+            return "1d"
+        if c == "bcast" and len({e["total"] for e in el}) != 1:
+            return "1d"
+        if c == "int" and case["via"] != "distribution":
+            return "0dim"
+        return c
+
+    def _srswor_eff(self, case):
+        """the vectors one call draws, in the order of the result's rows: sample shape [n] through the
+        distribution = n rows per batch element (row k: the element's free draws rotated by k)"""
+        n = case.get("sample_n") if case["via"] == "distribution" else None
+        if n is None:
+            return case["elems"]
+        return [dict(e, bits=e["bits"][k % max(len(e["bits"]), 1):] + e["bits"][:k % max(len(e["bits"]), 1)])
+                for k in range(n) for e in case["elems"]]
+
+    def _srswor_shape(self, case):
+        osz = case["out_size"] if case["out_size"] is not None else max(e["total"] for e in case["elems"])
+        n = case.get("sample_n") if case["via"] == "distribution" else None
+        batch = [] if self._srswor_counts(case) in ("0dim", "int") else [len(case["elems"])]
+        return ([] if n is None else [n]) + batch + [osz], batch + [osz]
 
     def _impl_srswor(self, case):
         try:
@@ -2370,21 +2462,22 @@ class C19(PropertyCheck):
             return {"error": "RuntimeError", "message": str(e)[:100]}
         except ValueError as e:
             return {"error": "ValueError", "message": str(e)[:100]}
-        return {"b": [[fs(x) for x in r] for r in b.tolist()], "ps": [[fs(x) for x in r] for r in ps],
-                "shape": list(b.shape), **info}
+        if b.dim() != 2:
+            return {"b": None, "ps": [[fs(x) for x in r] for r in ps], **info}
+        return {"b": [[fs(x) for x in r] for r in b.tolist()], "ps": [[fs(x) for x in r] for r in ps], **info}
 
     def _req_srswor(self, case):
         try:
             _, _, outs, _ = self._srswor_run(case)
         except Exception:
-            outs = [[] for _ in case["elems"]]
+            outs = [[] for _ in self._srswor_eff(case)]
         if not any(outs):
             # nothing was drawn (error path): give the model as many outcomes as requested
             osz = case["out_size"] if case["out_size"] is not None else max(e["total"] for e in case["elems"])
-            outs = [[0] * osz for _ in case["elems"]]
+            outs = [[0] * osz for _ in self._srswor_eff(case)]
         return {"op": "c19.srswor", "case": {"elems": [
             {"total": e["total"], "given": e["given"], "outcomes": [fs(x) for x in o]}
-            for e, o in zip(case["elems"], outs)]}}
+            for e, o in zip(self._srswor_eff(case), outs)]}}
 
     def _cmp_srswor(self, case, impl, model):
         merr = any("error" in m for m in model["elems"])
@@ -2393,6 +2486,8 @@ class C19(PropertyCheck):
                 return [f"error behaviour: impl={impl.get('error')} model_error={merr}"]
             return []
         out = []
+        if impl["b"] is None:
+            return [f"result of shape {impl['shape']}: not one row per vector drawn"]
         for i, m in enumerate(model["elems"]):
             if impl["b"][i] != m["bs"]:
                 out.append(f"elem {i}: b impl={impl['b'][i]} model={m['bs']}")
@@ -2405,7 +2500,7 @@ class C19(PropertyCheck):
         return out
 
     def _pred_srswor(self, case, impl, model):
-        elems = case["elems"]
+        elems = self._srswor_eff(case)
         bad = any(e["given"] > e["total"] for e in elems) or (
             case["out_size"] is not None and case["out_size"] < max(e["total"] for e in elems))
         if bad:
@@ -2416,8 +2511,14 @@ class C19(PropertyCheck):
             return [(f"SRSWOR raised {impl['error']} on admissible counts: {impl.get('message')}", None)]
         fails = []
         osz = case["out_size"] if case["out_size"] is not None else max(e["total"] for e in elems)
-        if impl["shape"] != [len(elems), osz]:
-            fails.append((f"SRSWOR result shape {impl['shape']} != {[len(elems), osz]}", None))
+        want, dwant = self._srswor_shape(case)
+        if impl["shape"] != want:
+            fails.append((f"SRSWOR result shape {impl['shape']} != sample shape + broadcast shape of the counts + "
+                          f"[out_size] = {want}", None))
+        if "dist_shape" in impl and impl["dist_shape"] != dwant:
+            fails.append((f"SRSWOR distribution batch_shape + event_shape {impl['dist_shape']} != {dwant}", None))
+        if impl["b"] is None:
+            return fails
         for i, e in enumerate(elems):
             row = [F(x) for x in impl["b"][i]]
             if any(x not in (0, 1) for x in row):
@@ -4312,7 +4413,8 @@ class C19(PropertyCheck):
                                     + ("/before the kept steps" if out[0] < case["burn_in"] else ""))]
         elif k == "imh":
             t += [f"imh:{'same' if case['density'] == 'same' else 'other'}/"
-                  f"{'supplied' if case['init'] is not None else 'drawn'}",
+                  f"{'supplied' if case['init'] is not None else 'drawn'}"
+                  + ("/re-pointed object (constructed over another distribution)" if case.get("repointed") else ""),
                   f"imh:kept={min(case['N'] - case['burn_in'], 4)}{'+' if case['N'] - case['burn_in'] >= 4 else ''}"]
             if case.get("sample_owned"):
                 t += ["imh:proposal keeps its samples"]
@@ -4322,6 +4424,11 @@ class C19(PropertyCheck):
             t += ["binom:" + ("rec" if case["L"] > 20 else "fact")]
         elif k == "srswor":
             t += [f"srswor:{case['via']}/B={len(case['elems'])}"]
+            osz, mt = case["out_size"], max(e["total"] for e in case["elems"])
+            t += [f"srswor:counts={self._srswor_counts(case)}/sample_shape="
+                  f"{'[n]' if case.get('sample_n') is not None and case['via'] == 'distribution' else '()'}/out_size "
+                  + ("omitted" if case.get("out_omitted") else "None" if osz is None else "equal" if osz == mt
+                     else "larger" if osz > mt else "smaller")]
         elif k == "bern":
             v = case.get("value")
             cls = "interior"
@@ -4496,6 +4603,13 @@ class C19(PropertyCheck):
         if k == "relax_comb" and case["N"] > 1:
             for n in range(case["N"]):
                 yield dict(case, N=1, us=[case["us"][n]], vs=[case["vs"][n]])
+        if k == "srswor":
+            if case.get("sample_n") is not None:
+                yield dict(case, sample_n=None)
+            if case.get("counts", "1d") != "1d":
+                yield dict(case, counts="1d")
+            if case.get("out_omitted"):
+                yield dict(case, out_omitted=False)
         if k == "srswor" and len(case["elems"]) > 1:
             for e in case["elems"]:
                 yield dict(case, elems=[e], out_size=None if case["out_size"] is None else max(
